@@ -115,8 +115,11 @@ def cycle_run(case, res: Result):
             stag = "pseudo-pure-blend"
         if H[3] > CP.PropsSI("H", "P", Ps[0], "Q", 1, case["fluid"]) + 1e-6:
             etag = "throttle-outlet-superheated(retrograde-fluid)"
-        if H[1] < CP.PropsSI("H", "P", Ps[1], "Q", 1, case["fluid"]) - 1e-6:
-            ctag = "wet-compressor-discharge(retrograde-fluid)"
+        if H[1] < CP.PropsSI("H", "P", Ps[1], "Q", 0, case["fluid"]) - 1e-6:
+            # the compression of a strongly retrograde fluid runs THROUGH the two-phase dome and ends on its liquid side
+            ctag = "compressor-discharge-beyond-the-dome-on-the-liquid-side(retrograde-fluid)"
+        elif H[1] < CP.PropsSI("H", "P", Ps[1], "Q", 1, case["fluid"]) - 1e-6:
+            ctag = "wet-compressor-discharge-inside-the-dome"
     except Exception:
         pass
     detail = {"H": H, "S": Sx, "P": Ps, "Q_cond": hp.Q_cond, "Q_evap": hp.Q_evap, "work": hp.work, "COP_h": hp.COP_h, "COP_r": hp.COP_r, "ihx_applied": hp.ihx_gas_dt}
